@@ -39,8 +39,8 @@ CONSTANTS Sizes,      \* <<n1,..,nk>>  sizes of the parameter dimensions, 1 <= k
           Methods,    \* subset of {"isnull","isfinite"}
           KindSel,    \* {"cells"}: every slot independently;  else a set of class names, one class per location
           Modes,      \* subset of {"find","parse"}
-          ReqKinds,   \* subset of {"combos","cases","mixed","partial"}
-          Rule        \* "all" | "anyvar" | "anypos" | "firstvar" | "swap" | "keyfalse" | "prepend" | "twice"
+          ReqKinds,   \* subset of {"combos","cases","mixed","partial","foreigncombo","foreigncase"}
+          Rule        \* "all" | "anyvar" | "anypos" | "firstvar" | "swap" | "keyfalse" | "ignoreforeign" | "prepend" | "twice"
 
 VARIABLES mode, method, cell0, cell, pc, cur, missing, missing2, req, k, newcases
 
@@ -86,7 +86,13 @@ HasData(c, m, l) == \E s \in 1..NS : ~IsNullP(m, c[l][s])
 
 (* a setting fixes some dimensions (0 = not fixed); an index beyond the size stands for a
    coordinate value that does not occur in the dataset *)
-AbsentS(s) == \E d \in Dims : s[d] > Sizes[d]
+(* Position ND+1 of a setting stands for a parameter the dataset has NO dimension for at all
+   (0 = the request does not mention it, otherwise it does, with some value): such a location's
+   coordinates are absent whatever its other entries are. *)
+DimsX == 1..(ND + 1)
+Foreign(s) == s[ND + 1] # 0
+AbsentS(s) == Foreign(s) \/ \E d \in Dims : s[d] > Sizes[d]
+AsSetting(l) == [d \in DimsX |-> IF d <= ND THEN l[d] ELSE 0]
 Matching(s) == { l \in Locs : \A d \in Dims : s[d] = 0 \/ s[d] = l[d] }
 NoDataIn(c, m, s) == \A l \in Matching(s) : ~HasData(c, m, l)
 WantedS(c, m, s) == AbsentS(s) \/ NoDataIn(c, m, s)
@@ -109,7 +115,8 @@ VarAll(c, m, ls, v) ==
 
 (* nds.to_array().all() : across the variables *)
 CodeMissing(c, m, s) ==
-    IF AbsentS(s) THEN (Rule # "keyfalse")                 \* KeyError from ds.sel -> True
+    IF (IF Rule = "ignoreforeign" THEN \E d \in Dims : s[d] > Sizes[d] ELSE AbsentS(s))
+       THEN (Rule # "keyfalse")                            \* KeyError from ds.sel -> True
     ELSE LET ls == Matching(s)
          IN  CASE Rule = "anyvar"   -> \E v \in 1..NV : VarAll(c, m, ls, v)
                [] Rule = "firstvar" -> VarAll(c, m, ls, 1)
@@ -132,7 +139,7 @@ Report(seq, l) ==
    [dim, vals] in the order of the mapping given by the caller. *)
 Rev(s) == [i \in 1..Len(s) |-> s[Len(s) + 1 - i]]
 Upto(n) == [i \in 1..n |-> i]
-Blank == [d \in Dims |-> 0]
+Blank == [d \in DimsX |-> 0]
 
 Request(kind) ==
     CASE kind = "combos" ->     \* everything as combos, keys in reverse dimension order, values reversed,
@@ -147,15 +154,24 @@ Request(kind) ==
       [] kind = "cases" ->      \* everything as cases, in reverse grid order, an unknown location second
            [kind  |-> kind,
             cases |-> LET g == Rev(GridByRank)
-                          bad == [d \in Dims |-> IF d = ND THEN Sizes[d] + 1 ELSE 1]
-                      IN  <<g[1], bad>> \o Tail(g),
+                          bad == [d \in DimsX |-> IF d = ND THEN Sizes[d] + 1 ELSE IF d < ND THEN 1 ELSE 0]
+                      IN  <<AsSetting(g[1]), bad>> \o [i \in 1..(Len(g) - 1) |-> AsSetting(g[i + 1])],
             combos |-> <<>>]
       [] kind = "mixed" ->      \* first dimension by cases (reversed, with an unknown value in the middle),
                                 \* the rest by combos in dataset order
            [kind  |-> kind,
             cases |-> LET vs == <<Sizes[1]>> \o <<Sizes[1] + 1>> \o Rev(Upto(Sizes[1] - 1))
-                      IN  [i \in 1..Len(vs) |-> [d \in Dims |-> IF d = 1 THEN vs[i] ELSE 0]],
+                      IN  [i \in 1..Len(vs) |-> [d \in DimsX |-> IF d = 1 THEN vs[i] ELSE 0]],
             combos |-> [i \in 1..(ND - 1) |-> [dim |-> i + 1, vals |-> Upto(Sizes[i + 1])]]]
+      [] kind = "foreigncombo" ->   \* every location by cases, plus a combo over a parameter that is not a
+                                    \* dimension of the dataset: nothing requested can be present
+           [kind  |-> kind,
+            cases |-> [i \in 1..NLoc |-> AsSetting(GridByRank[i])],
+            combos |-> << [dim |-> ND + 1, vals |-> <<1, 2>>] >>]
+      [] kind = "foreigncase" ->    \* every location by cases, every other one also naming the foreign parameter
+           [kind  |-> kind,
+            cases |-> [i \in 1..NLoc |-> [AsSetting(GridByRank[i]) EXCEPT ![ND + 1] = i % 2]],
+            combos |-> <<>>]
       [] kind = "partial" ->    \* only the last dimension is fixed: the whole slab must be null
            [kind  |-> kind,
             cases |-> <<Blank>>,
@@ -189,7 +205,7 @@ Init ==
 
 Visit1 ==
     /\ pc = "scan1"
-    /\ missing' = IF CodeMissing(cell, method, cur) THEN Report(missing, cur) ELSE missing
+    /\ missing' = IF CodeMissing(cell, method, AsSetting(cur)) THEN Report(missing, cur) ELSE missing
     /\ IF Succ(cur) = <<>> THEN pc' = "harvest" /\ cur' = First
                            ELSE pc' = pc /\ cur' = Succ(cur)
     /\ UNCHANGED <<mode, method, cell0, cell, missing2, req, k, newcases>>
@@ -205,7 +221,7 @@ HarvestReported ==
 
 Visit2 ==
     /\ pc = "scan2"
-    /\ missing2' = IF CodeMissing(cell, method, cur) THEN Report(missing2, cur) ELSE missing2
+    /\ missing2' = IF CodeMissing(cell, method, AsSetting(cur)) THEN Report(missing2, cur) ELSE missing2
     /\ IF Succ(cur) = <<>> THEN pc' = "done" /\ cur' = First
                            ELSE pc' = pc /\ cur' = Succ(cur)
     /\ UNCHANGED <<mode, method, cell0, cell, missing, req, k, newcases>>
@@ -262,5 +278,6 @@ EmitCase ==
                                          missing |-> missing, npartial |-> NPartial])>>)
            ELSE PrintT(<<"CASE", ToJson([mode |-> mode, method |-> method, cells |-> CellsOut,
                                          kind |-> req.kind, cases |-> req.cases, combos |-> req.combos,
+                                         list |-> req.list,
                                          expect |-> newcases, npartial |-> NPartial])>>)
 =============================================================================
